@@ -82,6 +82,12 @@ class C17(SCheck):
                 rel_up = "../" * p.count("/")
                 ents.append((p, "l", rel_up + tgt))
         lines = [r.choice(PATS) for _ in range(r.randrange(1, 7))]
+        if len(lines) >= 2 and r.random() < 0.3:
+            # files stitched together from templates repeat lines; git's "last match wins" makes the position of a repeat matter
+            k = r.randrange(0, len(lines) - 1)
+            lines.append(lines[k])
+            if r.random() < 0.5:
+                lines.insert(k + 1, ("!" + lines[k]) if not lines[k].startswith("!") and lines[k] and not lines[k].startswith("#") else lines[k][1:] or "x")
         text = "\n".join(lines) + ("\n" if r.random() < 0.8 else "")
         use = r.random() < 0.85
         ig = git_ignored(ents + [(".gitignore", "f", None)], text) if use else set()
@@ -103,8 +109,26 @@ class C17(SCheck):
             kernel["max_io"] = r.choice([1, 3, 16])
         sp = r.choice(["src", "src", "src", "./src", "src/", "src//", "src/.", ".//src", "$ROOT/src", "aux/../src", "./aux/.././src"])
         ops.append(gen.d_op("aux"))
-        inv = gen.mk_inv([sp], "dst", driver=driver, workers=workers, block_size=max(bs, 4096), **flags)
-        return {"setup": ops, "steps": [{"inv": inv, "ignore": {sp: sorted(ig)}}], "kernel": kernel, "gitignore": text, "n_ignored": len(ig), "max_events": 300000}
+        srcs = [sp]
+        ignore = {sp: sorted(ig)}
+        if r.random() < 0.3:
+            # a second source directory that has no .gitignore of its own: nothing of it is filtered, whatever the first one excludes
+            ops.append(gen.d_op("other"))
+            ops.append(gen.d_op("dst"))
+            for p, k, to in ents[:8]:
+                if k == "d":
+                    ops.append(gen.d_op("other/" + p))
+            for p, k, to in ents[:8]:
+                par = p.rsplit("/", 1)[0] if "/" in p else ""
+                if k == "f" and (par == "" or any(o["p"] == "other/" + par for o in ops)):
+                    ops.append(gen.f_op("other/" + p, 5, pat=3))
+            for nm in ("b.log", "a.o", "x.tmp", "debug"):
+                if not any(o["p"] == "other/" + nm for o in ops):
+                    ops.append(gen.f_op("other/" + nm, 4, pat=2))
+            srcs = [sp, "other"] if r.random() < 0.7 else ["other", sp]
+            ignore["other"] = []
+        inv = gen.mk_inv(srcs, "dst", driver=driver, workers=workers, block_size=max(bs, 4096), **flags)
+        return {"setup": ops, "steps": [{"inv": inv, "ignore": ignore}], "kernel": kernel, "gitignore": text, "n_ignored": len(ig), "max_events": 300000}
 
     def evaluate(self, res, verdict, case, step_i, t0, plan):
         f = super().evaluate(res, verdict, case, step_i, t0, plan)
